@@ -480,8 +480,8 @@ func (r *c09Rec) serveBody(req *http.Request, from int) *http.Response {
 		}
 	}
 	d := c
-	if rec.Cls == "datafull" && es[n].cur > d {
-		d = es[n].cur
+	if rec.Cls == "datafull" && rec.Knd == "eof" && es[n].cur > d {
+		d = es[n].cur // content complete at a clean end of the body, only the blank line is missing
 	}
 	rec.C, rec.D = c, d
 	touched := n
